@@ -558,10 +558,10 @@ class WebSocket:
 
         try:
             self.connected = False
-            self.send(struct.pack("!H", status) + reason, ABNF.OPCODE_CLOSE)
             sock_timeout = self.sock.gettimeout()
             self.sock.settimeout(timeout)
             start_time = time.time()
+            self.send(struct.pack("!H", status) + reason, ABNF.OPCODE_CLOSE)
             while timeout is None or time.time() - start_time < timeout:
                 try:
                     frame = self.recv_frame()
